@@ -106,6 +106,13 @@ func (c *Ctx) Undecided(construct string, pos token.Pos, detail string, args ...
 	c.add(report.Undecided, construct, pos, detail, args...)
 }
 
+// Scope restricts the obligations added since mark (an index into c.Obs) to the given properties.
+func (c *Ctx) Scope(mark int, props ...string) {
+	for i := mark; i < len(c.Obs); i++ {
+		c.Obs[i].OnlyFor = props
+	}
+}
+
 // Check records discharged if cond else violated.
 func (c *Ctx) Check(cond bool, construct string, pos token.Pos, okDetail, badDetail string) bool {
 	if cond {
